@@ -80,7 +80,7 @@ def run_multi_case(case):
             res = groupby_reduce(array, *bys, **kw)
         r = np.asarray(res[0])
         out["shape"] = list(r.shape)
-        out["out"] = [pv(x, 1e-9) for x in r.reshape(-1)]
+        out["out"] = [redcase.pv_out(x, 1e-9) for x in r.reshape(-1)]
         out["ngroups_returned"] = [len(g) for g in res[1:]]
     except ProjectionError as e:
         out.update(exc="ProjectionError", msg=str(e))
